@@ -207,7 +207,7 @@ def run(ctx):
     # ---------------------------------------------------------------- R3 roots
     ctx.rule("R3", "every kernel line is a search root (sequential branch)")
     for c in seq_calls:
-        loop = C.enclosing_loop(c)
+        loop = C.root_loop(c)
         src = C.arg_of(c, 1, "source")
         b = pm.match("M_i.line_number", src) if src is not None else None
         good = (isinstance(loop, ast.For) and U(loop.iter) in kernel_names and b is not None
@@ -219,7 +219,7 @@ def run(ctx):
                          "the sequential search does not use every line of the kernel as a root "
                          "(loop over %s)" % (U(loop.iter) if isinstance(loop, ast.For) else "?"))
     for c in ext_calls:
-        loop = C.enclosing_loop(c)
+        loop = C.root_loop(c)
         src = C.arg_of(c, 1, "source")
         b = pm.match("M_i.line_number", src) if src is not None else None
         good = (isinstance(loop, ast.For) and U(loop.iter) in ext.params() and b is not None
